@@ -366,7 +366,63 @@ CONSTANTS MCLayout, InitMembers, Joiners, Leavers, MaxOps, Faults, OpKinds
    "nosucc"  - a lookup that can be handed to a live node without successor list ends with the non-retryable ErrNodeNoSuccessor *)
 SplitStab == "stab" \in OpKinds
 FwdUnderLock == "fwdlock" \in OpKinds
-ClientKinds == OpKinds \ {"stab", "fwdlock", "nosucc"}
+ClientKinds == {k \in OpKinds : k \in {"put", "get", "delete", "append", "remove", "list"}}
+
+(* ---- Three-phase rounds, fingerprints, crashes (pseudo-members "fp", "fplate", "crash<n>", "flap<n>" of OpKinds).
+   A stabilize round is compute (gate stab:computed) / install / notify (gate stn:notify).  The node remembers a fingerprint of the list it
+   installed last (succListHash) and installs a computed list only if its fingerprint differs; list and fingerprint are written together,
+   under successorsMu.  Two rounds of one node can overlap (periodic round, advisory round, a slow earlier round).  With "fplate" the
+   fingerprint is written at the end of the round, after the Notify call - the variant TLC must refute: a stale round that installs last and
+   a correct round that remembers last leave the node with a list one step behind and the fingerprint of the right one, and no later round
+   installs anything.  The hazard needs a stale list that differs from the installed one, i.e. nodes that crash ("crash<n>": stop answering
+   without the leave protocol) or do not answer for a while ("flap<n>"). *)
+UseFp == "fp" \in OpKinds
+FpLate == "fplate" \in OpKinds
+Crashers == {n \in NodesOf(MCLayout) : ("crash" \o ToString(n)) \in OpKinds}
+Flappers == {n \in NodesOf(MCLayout) : ("flap" \o ToString(n)) \in OpKinds}
+S3ReadEn(x, n) == Live(x, n) /\ x.succ[n] # <<>> /\ ~x.stb[n].on
+S3ReadF(x, n) == [x EXCEPT !.stb[n] = [on |-> TRUE, nl |-> StabNewList(x, n)]]
+S3InstallEn(x, n) == x.stb[n].on /\ ~x.stn[n].on
+S3InstallF(x, n) ==
+  LET nl == x.stb[n].nl
+      ch == nl # <<>> /\ nl # x.fp[n]
+      x1 == [x EXCEPT !.stb[n] = [on |-> FALSE, nl |-> <<>>], !.stn[n] = [on |-> TRUE, nl |-> nl, ch |-> ch]] IN
+  IF ~ch THEN x1
+  ELSE IF FpLate THEN [x1 EXCEPT !.succ[n] = nl] ELSE [x1 EXCEPT !.succ[n] = nl, !.fp[n] = nl]
+(* a second round of the same node that computes and installs without pausing while an earlier round still sits between its two steps *)
+S3ReadInstallEn(x, n) == Live(x, n) /\ x.succ[n] # <<>> /\ x.stb[n].on /\ ~x.stn[n].on
+S3ReadInstallF(x, n) ==
+  LET held == x.stb[n]
+      y == S3InstallF([x EXCEPT !.stb[n] = [on |-> TRUE, nl |-> StabNewList(x, n)]], n) IN
+  [y EXCEPT !.stb[n] = held]
+S3NotifyEn(x, n) == x.stn[n].on
+S3NotifyF(x, n) ==
+  LET r == x.stn[n]
+      x1 == [x EXCEPT !.stn[n] = [on |-> FALSE, nl |-> <<>>, ch |-> FALSE]]
+      x2 == IF r.nl # <<>> /\ Pingable(x1, n)
+            THEN LET h == r.nl[1]  res == NotifyRes(x1, h, n) IN [x1 EXCEPT !.pred[h] = res[1], !.sur[h] = res[2]]
+            ELSE x1 IN
+  IF FpLate /\ r.ch THEN [x2 EXCEPT !.fp[n] = r.nl] ELSE x2
+(* the earlier round goes on (install, notify, end) while the later one sits before its Notify call *)
+S3InstallNotifyEn(x, n) == x.stb[n].on /\ x.stn[n].on
+S3InstallNotifyF(x, n) ==
+  LET held == x.stn[n]
+      y == S3NotifyF(S3InstallF([x EXCEPT !.stn[n] = [on |-> FALSE, nl |-> <<>>, ch |-> FALSE]], n), n) IN
+  [y EXCEPT !.stn[n] = held]
+CrashEn(x, n) == n \in Crashers /\ x.st[n] = "Active"
+CrashF(x, n) == [x EXCEPT !.st[n] = "Left"]
+MuteEn(x, n) == n \in Flappers /\ x.st[n] = "Active" /\ n \notin x.mut /\ x.jtry[n] = 0
+MuteF(x, n) == [x EXCEPT !.st[n] = "Left", !.mut = @ \cup {n}, !.jtry[n] = 1]        \* (jtry of a member is unused: marks "has been away once")
+UnmuteEn(x, n) == n \in x.mut
+UnmuteF(x, n) == [x EXCEPT !.st[n] = "Active", !.mut = @ \ {n}]
+(* a maintenance fixpoint: nothing is in progress and a further round of any node changes nothing *)
+RoundChangesNothing(x, n) ==
+  LET nl == StabNewList(x, n) IN
+  /\ (nl = <<>> \/ nl = x.fp[n] \/ nl = x.succ[n])
+  /\ (nl # <<>> /\ Pingable(x, n)) => LET h == nl[1]  res == NotifyRes(x, h, n) IN res[1] = x.pred[h] /\ res[2] = x.sur[h]
+RoundsFix(x) == /\ x.mut = {} /\ \A n \in NodesOf(x.lay) : ~x.stb[n].on /\ ~x.stn[n].on
+               /\ \A n \in NodesOf(x.lay) : (Live(x, n) /\ x.succ[n] # <<>>) => (RoundChangesNothing(x, n) /\ CheckPredF(x, n) = x)
+FirstSuccCorrect(x) == \A n \in Members(x) : x.succ[n] # <<>> /\ PrevMember(x.lay, Members(x), x.succ[n][1]) = n /\ x.succ[n][1] \in Members(x)
 
 VARIABLES s, ops      \* ops: client operations [kind, k, arg, at, hops, st, r]
 vars == <<s, ops>>
@@ -391,6 +447,9 @@ InitState(lay, members) ==
    succ |-> [n \in N |-> IF n \in members THEN MkList(NextK(lay, members, n, 1)[1], Tail(NextK(lay, members, n, L))) ELSE <<>>],
    sur |-> [n \in N |-> Nil],
    fset |-> [n \in N |-> {}],
+   fp |-> [n \in N |-> <<>>],                                \* the list whose fingerprint the node remembers (succListHash), see "Three-phase rounds"
+   stn |-> [n \in N |-> [on |-> FALSE, nl |-> <<>>, ch |-> FALSE]],   \* a stabilize round between installing its list and notifying the new head
+   mut |-> {},                                               \* nodes that do not answer for the moment (they come back)
    stb |-> [n \in N |-> [on |-> FALSE, nl |-> <<>>]],     \* a stabilize round between computing its list and installing it       \* recorded runs: the nodes named by the finger table (re-synchronised from the log, never computed)
    store |-> [n \in N |-> [k \in KeysOf(lay) |-> EmptyVal]],
    cur |-> [k \in KeysOf(lay) |-> EmptyVal],
@@ -425,8 +484,16 @@ Membership ==
 
 Maintenance ==
   \E n \in NodesOf(s.lay) :
-     \/ StabilizeEn(s, n) /\ s' = StabilizeF(s, n) /\ s' # s
+     \/ ~UseFp /\ StabilizeEn(s, n) /\ s' = StabilizeF(s, n) /\ s' # s
      \/ CheckPredEn(s, n) /\ s' = CheckPredF(s, n) /\ s' # s
+     \/ UseFp /\ S3ReadEn(s, n) /\ s' = S3ReadF(s, n)
+     \/ UseFp /\ S3InstallEn(s, n) /\ s' = S3InstallF(s, n)
+     \/ UseFp /\ S3ReadInstallEn(s, n) /\ s' = S3ReadInstallF(s, n)
+     \/ UseFp /\ S3InstallNotifyEn(s, n) /\ s' = S3InstallNotifyF(s, n)
+     \/ UseFp /\ S3NotifyEn(s, n) /\ s' = S3NotifyF(s, n)
+     \/ UseFp /\ CrashEn(s, n) /\ s' = CrashF(s, n)
+     \/ UseFp /\ MuteEn(s, n) /\ s' = MuteF(s, n)
+     \/ UseFp /\ UnmuteEn(s, n) /\ s' = UnmuteF(s, n)
      \/ SplitStab /\ StabReadEn(s, n) /\ s' = StabReadF(s, n)
      \/ SplitStab /\ StabWriteEn(s, n) /\ s' = StabWriteF(s, n)
 
@@ -474,6 +541,8 @@ InvNoBad == NoBad(s)
 CONSTANT Goal
 InvGoalUnreached == ~(Goal \in s.cov)          \* coverage goal: its "counterexample" is a witness behaviour
 (* C04: a read linearizes at its local access, where it must see the last linearized write: tag "staleread" in bad *)
+(* C01 / C02 with overlapping rounds and crashed nodes: at a maintenance fixpoint every member's first successor is the next member *)
+InvNoWrongFixpoint == (UseFp /\ Quiet(s) /\ RoundsFix(s)) => FirstSuccCorrect(s)
 InvNoNonRetryable == \A i \in 1..Len(ops) : ops[i].st \notin {"notstarted", "looped", "nosucc"}
 (* the forward to the surrogate is made while surrogateMu is read-locked; if the call chain returns to the same node it read-locks
    again: with a writer (RequestToJoin, Notify, Leave, Import) queued in between, both wait for ever *)
